@@ -409,7 +409,10 @@ PROPS = {
                    thorough=20, one_per_proc=True),
               # reopen followed at once by a write that spans log blocks
               dict(driver="fault", args=["--nops", "12", "--positions", "30", "--large",
-                                         "--reopen-heavy"], quick=3, thorough=30, one_per_proc=True)]),
+                                         "--reopen-heavy"], quick=3, thorough=30, one_per_proc=True),
+              # read calls as faultable operations too (beyond the list in the quantifier)
+              dict(driver="fault", args=["--nops", "18", "--positions", "60", "--read-faults"],
+                   quick=3, thorough=30, one_per_proc=True)]),
     "C05": dict(
         design=[(CONC, ["MC_RainConc_small.cfg"], ["MC_RainConc_small.cfg"]),
                 ("MC_RainCache.tla", ["MC_RainCache_small.cfg"], ["MC_RainCache_big.cfg"])],
@@ -711,7 +714,8 @@ def finish(prop, tier, seed, t0, design, switches, recs, vruns, rejects, tstates
             json.dump({"driver": "fault", "seed": seed_v, "idx": int(idx), "sticky": sticky == "true",
                        "nops": wl[0].get("nops", 22) if wl else 22,
                        "large": wl[0].get("large", False) if wl else False,
-                       "reopen_heavy": wl[0].get("reopen_heavy", False) if wl else False},
+                       "reopen_heavy": wl[0].get("reopen_heavy", False) if wl else False,
+                       "read_faults": wl[0].get("read_faults", False) if wl else False},
                       open(dst, "w"))
         else:
             try:
@@ -769,6 +773,8 @@ def replay(path):
             cmd.append("--large")
         if rp.get("reopen_heavy"):
             cmd.append("--reopen-heavy")
+        if rp.get("read_faults"):
+            cmd.append("--read-faults")
         r = sh(cmd, timeout=900)
     elif rp["driver"] == "sched" and rp.get("schedule"):
         os.makedirs(outdir, exist_ok=True)
